@@ -224,6 +224,11 @@ class Family:
         return [c for c in self.classes if issubclass(c, base)]
 
 
+_GROUP_CACHE: dict = {}
+_ENUM_CACHE: dict = {}
+_ABSTRACT_CACHE: dict = {}
+
+
 class Universe:
     """All sorts for one verification run."""
 
@@ -241,6 +246,18 @@ class Universe:
                       field_overrides: dict[tuple[type, str], object] | None = None):
         """specs: family name -> concrete dataclasses.  Families in one group may refer to each
         other.  roots: family name -> abstract base classes whose annotation means 'this family'."""
+        cache_key = (tuple((n, tuple(cl)) for n, cl in specs.items()), repr(sorted((field_overrides or {}).keys(), key=repr)))
+        if cache_key in _GROUP_CACHE:
+            # the same classes were already turned into sorts in this process (z3 has one global context)
+            fams, opts, roots_cached = _GROUP_CACHE[cache_key]
+            for n, f in fams.items():
+                self.families[n] = f
+                for c in f.classes:
+                    self.class_family[c] = f
+            self.root_family.extend(roots_cached)
+            self.opts.update(opts)
+            return [self.families[n] for n in fams]
+        opts_before = set(self.opts)
         fams = {n: Family(n, cl) for n, cl in specs.items()}
         for n, f in fams.items():
             if n in self.families:
@@ -287,6 +304,7 @@ class Universe:
         for c, fl in decls.items():
             f = self.class_family[c]
             f.field_tys[c] = [(nm, ty) for nm, ty, _ in fl]
+        _GROUP_CACHE[cache_key] = (fams, {k: v for k, v in self.opts.items() if k not in opts_before}, pending_roots)
         return [self.families[n] for n in fams]
 
     def _hint_to_ty(self, hint, fams, dts, opt_needed):
@@ -358,14 +376,18 @@ class Universe:
 
     def enum_ty(self, cls):
         if cls not in self.enums:
-            names = [m.name for m in cls]
-            srt, consts = z3.EnumSort(f"Enum_{cls.__name__}", names)
-            self.enums[cls] = TEnum(cls, srt, dict(zip(list(cls), consts)))
+            if cls not in _ENUM_CACHE:
+                names = [m.name for m in cls]
+                srt, consts = z3.EnumSort(f"Enum_{cls.__name__}", names)
+                _ENUM_CACHE[cls] = TEnum(cls, srt, dict(zip(list(cls), consts)))
+            self.enums[cls] = _ENUM_CACHE[cls]
         return self.enums[cls]
 
     def abstract_ty(self, name):
         if name not in self.abstract:
-            self.abstract[name] = TAbstract(name)
+            if name not in _ABSTRACT_CACHE:
+                _ABSTRACT_CACHE[name] = TAbstract(name)
+            self.abstract[name] = _ABSTRACT_CACHE[name]
         return self.abstract[name]
 
     def ty_for_class(self, cls) -> Ty:
